@@ -91,6 +91,19 @@ def run(chk):
                     exp = bind('Mean', 'B', exp)
                 return check_eq(terms['initial_condition'], exp, 'initial_condition')
             chk.run("C05.R2", SITE['ODE'] + " (initial condition block)", cfg, go, construct="initial_condition[ODE]")
+    # per-component weights: sum_c w_c (u_c(t0) - u0_c)^2, as in the sibling PDE term and the dynamic term
+    for pk in ((), ('nu',)):
+        cfg = {"loss": "ODE", "outputs": 2, "param_batch": list(pk), "weight": "per component"}
+
+        def go(pk=pk):
+            S = SingleLoss(E, 'ODE', 'PINN', m_u=2, terms=('ic',), wkind='vector', wkind_terms=('initial_condition',))
+            total, terms = S.evaluate(param_keys=pk)
+            w = to_at(S.w['initial_condition'])
+            uv = S.u(to_at(S.t0), row_params(E, S.params, pk) if pk else S.params)
+            sq = jnp_sum(w * (uv - S.u0) ** 2, axis=-1).data[()]
+            exp = bind('Mean', 'B', sq) if pk else sq
+            return check_eq(terms['initial_condition'], exp, 'initial_condition')
+        chk.run("C05.R2", SITE['ODE'] + " (initial condition block)", cfg, go, construct="initial_condition[ODE] with per-component weights")
     # the initial-condition term uses the caller's / parameter-batch values, never the observed parameters
     for pk in ((), ('nu',)):
         cfg = {"loss": "ODE", "outputs": 1, "param_batch": list(pk), "observations_with_observed_parameter": "nu"}
